@@ -25,6 +25,9 @@ package bfe_server
 //              backend saw nothing of the target request.
 //   finish   : (points that honour Finish) the target request gets a complete reply, after
 //              which the server closes the connection on its own; nothing is served afterwards.
+// Second family ("conn"): the connection-level points HandleAccept and HandleHandshake, on plain
+// and on TLS connections (real bfe_tls server handshake with Go's crypto/tls client over an
+// in-memory pipe inside the bubble, so conn.serve sees a *bfe_tls.Conn); see c48connCase.
 // Which verdicts a point honours is read from the verdict switches in bfe_server (see
 // c48honours); verdicts a point does not honour are still enumerated, but only the order
 // clause is judged for them.
@@ -32,6 +35,16 @@ package bfe_server
 import (
 	"bufio"
 	"bytes"
+	"crypto/ecdsa"
+	"crypto/elliptic"
+	"crypto/rand"
+	stdtls "crypto/tls"
+	"crypto/x509"
+	"crypto/x509/pkix"
+	"errors"
+	"math/big"
+	"net"
+	"testing/synctest"
 	"fmt"
 	"io"
 	"net/http"
@@ -46,6 +59,7 @@ import (
 	"github.com/bfenetworks/bfe/bfe_basic"
 	"github.com/bfenetworks/bfe/bfe_http"
 	"github.com/bfenetworks/bfe/bfe_module"
+	"github.com/bfenetworks/bfe/bfe_tls"
 	"github.com/bfenetworks/bfe/verifkit/vk"
 )
 
@@ -536,6 +550,10 @@ func c48judge(r *vk.Run, c c48case, o c48obs) string {
 		if bad == "" && len(log)%want != 0 {
 			bad = "chain-cut-short"
 		}
+		if bad == "" && len(log) > want && c48points[pi].name != "Forward" {
+			// Forward is the only point the request path passes more than once (per backend attempt)
+			bad = "chain-run-again"
+		}
 		if bad != "" {
 			r.Violation("order:"+c48points[pi].name+":"+bad, id, fmt.Sprintf("point %s (active point %s, verdicts %v, shape %s): filters called %v, want repetitions of 0..%d", c48points[pi].name, pt.name, c.verd, sh.name, log, want-1))
 		}
@@ -700,6 +718,474 @@ func c48trunc(b []byte) []byte {
 	return b
 }
 
+// ---- family "conn": connection-level points on plain and TLS connections ------------------------
+//
+// One execution = (transport plain|tls, chain at HandleAccept: length 0..3 + verdict vector,
+// chain at HandleHandshake: length 0..3 + verdict vector). A callbacks table with exactly these
+// chains (real AddFilter) plus ONE request-level filter at HandleBeforeLocation (records, and
+// answers 200 "served") is installed in the server; the real conn.serve runs over an in-memory
+// duplex pipe; for tls the server end is a real bfe_tls.Server conn and the client is Go's
+// crypto/tls client (ECDHE-ECDSA, TLS 1.2, no ALPN => the https HTTP/1 path).
+// Oracle: HandleAccept filters run in registration order, exactly once, up to the first
+// non-GoOn verdict; HandleHandshake filters never run on a plain connection nor after a Close
+// at HandleAccept, otherwise exactly once in order up to the first non-GoOn; a Close at
+// HandleAccept => not one byte reaches the client (the TLS handshake does not complete); a
+// Close at HandleHandshake => the handshake completed but no application byte reaches the
+// client; after either Close the request-level filter never runs and the server closes the
+// connection; without a Close (all GoOn) the request is served.
+
+type c48q struct {
+	mu     sync.Mutex
+	cond   *sync.Cond
+	buf    []byte
+	closed bool
+	total  int
+}
+
+func newC48q() *c48q { q := &c48q{}; q.cond = sync.NewCond(&q.mu); return q }
+
+func (q *c48q) read(p []byte) (int, error) {
+	q.mu.Lock()
+	defer q.mu.Unlock()
+	for len(q.buf) == 0 && !q.closed {
+		q.cond.Wait()
+	}
+	if len(q.buf) == 0 {
+		return 0, io.EOF
+	}
+	n := copy(p, q.buf)
+	q.buf = q.buf[n:]
+	return n, nil
+}
+
+func (q *c48q) write(p []byte) (int, error) {
+	q.mu.Lock()
+	defer q.mu.Unlock()
+	if q.closed {
+		return 0, errors.New("use of closed network connection")
+	}
+	q.buf = append(q.buf, p...)
+	q.total += len(p)
+	q.cond.Broadcast()
+	return len(p), nil
+}
+
+func (q *c48q) close() { q.mu.Lock(); q.closed = true; q.cond.Broadcast(); q.mu.Unlock() }
+func (q *c48q) sent() int { q.mu.Lock(); defer q.mu.Unlock(); return q.total }
+func (q *c48q) isClosed() bool { q.mu.Lock(); defer q.mu.Unlock(); return q.closed }
+
+// c48end is one end of an in-memory duplex connection (deadlines ignored).
+type c48end struct {
+	rq, wq        *c48q
+	local, remote net.Addr
+}
+
+func (e *c48end) Read(p []byte) (int, error)         { return e.rq.read(p) }
+func (e *c48end) Write(p []byte) (int, error)        { return e.wq.write(p) }
+func (e *c48end) Close() error                       { e.wq.close(); e.rq.close(); return nil }
+func (e *c48end) LocalAddr() net.Addr                { return e.local }
+func (e *c48end) RemoteAddr() net.Addr               { return e.remote }
+func (e *c48end) SetDeadline(t time.Time) error      { return nil }
+func (e *c48end) SetReadDeadline(t time.Time) error  { return nil }
+func (e *c48end) SetWriteDeadline(t time.Time) error { return nil }
+
+type c48sink struct {
+	mu sync.Mutex
+	b  []byte
+}
+
+func (k *c48sink) Write(p []byte) (int, error) { k.mu.Lock(); k.b = append(k.b, p...); k.mu.Unlock(); return len(p), nil }
+func (k *c48sink) bytes() []byte               { k.mu.Lock(); defer k.mu.Unlock(); return append([]byte(nil), k.b...) }
+
+type c48connCase struct {
+	tls    bool
+	va, vh []int // verdict vectors = the chains registered at HandleAccept / HandleHandshake
+}
+
+func c48vecString(v []int) string {
+	if len(v) == 0 {
+		return "-"
+	}
+	var sb strings.Builder
+	for _, x := range v {
+		sb.WriteString(c48verdLetter[x])
+	}
+	return sb.String()
+}
+
+func (c c48connCase) id() string {
+	tr := "plain"
+	if c.tls {
+		tr = "tls"
+	}
+	return fmt.Sprintf("conn|%s|A:%s|H:%s", tr, c48vecString(c.va), c48vecString(c.vh))
+}
+
+// per-execution record of the conn family (filled by the filters)
+type c48connCtl struct {
+	mu       sync.Mutex
+	va, vh   []int
+	accept   []int
+	hs       []int
+	requests int
+}
+
+var c48cc = &c48connCtl{}
+
+func (k *c48connCtl) hit(which byte, i int) int {
+	k.mu.Lock()
+	defer k.mu.Unlock()
+	if which == 'A' {
+		k.accept = append(k.accept, i)
+		if i < len(k.va) {
+			return k.va[i]
+		}
+		return c48GoOn
+	}
+	k.hs = append(k.hs, i)
+	if i < len(k.vh) {
+		return k.vh[i]
+	}
+	return c48GoOn
+}
+
+// c48connCallbacks builds a callbacks table with la filters at HandleAccept, lh at
+// HandleHandshake and the one request-level filter.
+func c48connCallbacks(la, lh int) *bfe_module.BfeCallbacks {
+	cb := bfe_module.NewBfeCallbacks()
+	must := func(err error) {
+		if err != nil {
+			panic("c48: AddFilter: " + err.Error())
+		}
+	}
+	for i := 0; i < la; i++ {
+		i := i
+		must(cb.AddFilter(bfe_module.HandleAccept, func(s *bfe_basic.Session) int { return c48bfeVerdict(c48cc.hit('A', i)) }))
+	}
+	for i := 0; i < lh; i++ {
+		i := i
+		must(cb.AddFilter(bfe_module.HandleHandshake, func(s *bfe_basic.Session) int { return c48bfeVerdict(c48cc.hit('H', i)) }))
+	}
+	must(cb.AddFilter(bfe_module.HandleBeforeLocation, func(req *bfe_basic.Request) (int, *bfe_http.Response) {
+		c48cc.mu.Lock()
+		c48cc.requests++
+		c48cc.mu.Unlock()
+		res := bfe_basic.CreateInternalResp(req, bfe_http.StatusOK)
+		res.Body = io.NopCloser(strings.NewReader("served"))
+		return bfe_module.BfeHandlerResponse, res
+	}))
+	return cb
+}
+
+type c48connEnv struct {
+	srv    *BfeServer
+	tlsCfg *bfe_tls.Config
+	cbs    map[[2]int]*bfe_module.BfeCallbacks
+}
+
+func c48connSetup(t *testing.T, dir string) *c48connEnv {
+	env := &c48connEnv{cbs: map[[2]int]*bfe_module.BfeCallbacks{}}
+	env.srv = h1newServer(dir, c48spec())
+	// what StartUp does for the TLS rule table, without files: default next-protos only
+	env.srv.TLSServerRule = NewTLSServerRuleMap(env.srv.serverStatus.ProxyState)
+	env.srv.TLSServerRule.nextProtosDef = NewNextProtosConf(env.srv.TLSServerRule, DefaultNextProtos)
+	priv, err := ecdsa.GenerateKey(elliptic.P256(), rand.Reader)
+	if err != nil {
+		t.Fatalf("c48: key: %v", err)
+	}
+	tmpl := &x509.Certificate{SerialNumber: big.NewInt(48), Subject: pkix.Name{CommonName: "example.org"},
+		NotBefore: time.Date(1999, 1, 1, 0, 0, 0, 0, time.UTC), NotAfter: time.Date(2099, 1, 1, 0, 0, 0, 0, time.UTC),
+		KeyUsage: x509.KeyUsageDigitalSignature, ExtKeyUsage: []x509.ExtKeyUsage{x509.ExtKeyUsageServerAuth},
+		DNSNames: []string{"example.org"}}
+	der, err := x509.CreateCertificate(rand.Reader, tmpl, tmpl, &priv.PublicKey, priv)
+	if err != nil {
+		t.Fatalf("c48: cert: %v", err)
+	}
+	env.tlsCfg = &bfe_tls.Config{Certificates: []bfe_tls.Certificate{{Certificate: [][]byte{der}, PrivateKey: priv}}}
+	return env
+}
+
+type c48connObs struct {
+	accept, hs []int
+	requests   int
+	rawToCli   int    // bytes bfe wrote to the transport
+	app        []byte // application bytes the client received (tls: decrypted)
+	hsDone     bool   // tls: the client's handshake returned
+	hsErr      error
+	serveDone  bool // conn.serve returned on its own (before the client went away)
+	srvClosed  bool // bfe closed the transport on its own
+	panics     int64
+}
+
+const c48connReq = "GET /t HTTP/1.1\r\nHost: example.org\r\nConnection: close\r\n\r\n"
+
+func c48connExecute(t *testing.T, env *c48connEnv, c c48connCase) c48connObs {
+	var o c48connObs
+	key := [2]int{len(c.va), len(c.vh)}
+	cb := env.cbs[key]
+	if cb == nil {
+		cb = c48connCallbacks(key[0], key[1])
+		env.cbs[key] = cb
+	}
+	c48cc.mu.Lock()
+	c48cc.va, c48cc.vh, c48cc.accept, c48cc.hs, c48cc.requests = c.va, c.vh, nil, nil, 0
+	c48cc.mu.Unlock()
+	p0 := env.srv.serverStatus.ProxyState.PanicClientConnServe.Get()
+	env.srv.CallBacks = cb // ReverseProxy reads the table through its server pointer
+	synctest.Test(t, func(t *testing.T) {
+		srvX := new(BfeServer) // fresh connWaitGroup per bubble, everything else shared
+		*srvX = *env.srv
+		toBfe, fromBfe := newC48q(), newC48q()
+		port := 80
+		if c.tls {
+			port = 443
+		}
+		la := &net.TCPAddr{IP: net.IPv4(10, 9, 0, 1), Port: port}
+		ra := &net.TCPAddr{IP: net.IPv4(10, 9, 0, 2), Port: 40000}
+		bfeEnd := &c48end{rq: toBfe, wq: fromBfe, local: la, remote: ra}
+		peer := &c48end{rq: fromBfe, wq: toBfe, local: ra, remote: la}
+		var rwc net.Conn = bfeEnd
+		if c.tls {
+			rwc = bfe_tls.Server(bfeEnd, env.tlsCfg)
+		}
+		cn, err := newConn(rwc, srvX)
+		if err != nil {
+			t.Fatalf("c48: newConn: %v", err)
+		}
+		served := make(chan struct{})
+		go func() { defer close(served); cn.serve() }()
+		app := &c48sink{}
+		cliDone := make(chan struct{})
+		var mu sync.Mutex
+		go func() {
+			defer close(cliDone)
+			var rw io.ReadWriter = peer
+			if c.tls {
+				cli := stdtls.Client(peer, &stdtls.Config{InsecureSkipVerify: true, ServerName: "example.org", MaxVersion: stdtls.VersionTLS12})
+				err := cli.Handshake()
+				mu.Lock()
+				o.hsDone, o.hsErr = true, err
+				mu.Unlock()
+				if err != nil {
+					return
+				}
+				rw = cli
+			}
+			rw.Write([]byte(c48connReq)) // may fail when bfe already closed: fine
+			io.Copy(app, rw)
+		}()
+		synctest.Wait()
+		time.Sleep(2 * time.Second)
+		synctest.Wait()
+		select {
+		case <-served:
+			o.serveDone = true
+		default:
+		}
+		o.srvClosed = fromBfe.isClosed()
+		o.rawToCli = fromBfe.sent()
+		o.app = app.bytes()
+		// teardown: the client goes away
+		peer.Close()
+		synctest.Wait()
+		<-served
+		<-cliDone
+		mu.Lock()
+		mu.Unlock()
+	})
+	c48cc.mu.Lock()
+	o.accept, o.hs, o.requests = c48cc.accept, c48cc.hs, c48cc.requests
+	c48cc.mu.Unlock()
+	o.panics = env.srv.serverStatus.ProxyState.PanicClientConnServe.Get() - p0
+	return o
+}
+
+func c48firstStop(v []int) (k, verdict int) {
+	for i, x := range v {
+		if x != c48GoOn {
+			return i, x
+		}
+	}
+	return len(v) - 1, c48GoOn
+}
+
+func c48eqInts(a, b []int) bool {
+	if len(a) != len(b) {
+		return false
+	}
+	for i := range a {
+		if a[i] != b[i] {
+			return false
+		}
+	}
+	return true
+}
+
+func c48seq(n int) []int {
+	var v []int
+	for i := 0; i < n; i++ {
+		v = append(v, i)
+	}
+	return v
+}
+
+func c48connJudge(r *vk.Run, c c48connCase, o c48connObs) string {
+	id := c.id()
+	tr := "plain"
+	if c.tls {
+		tr = "tls"
+	}
+	vio := func(sig, detail string) {
+		r.Violation(sig, id, fmt.Sprintf("%s; transport=%s accept-chain=%s handshake-chain=%s: accept filters called %v, handshake filters called %v, request filter ran %d time(s), client handshake done=%v err=%v, raw bytes to client=%d, application bytes=%s", detail, tr, c48vecString(c.va), c48vecString(c.vh), o.accept, o.hs, o.requests, o.hsDone, o.hsErr, o.rawToCli, vk.Q(c48trunc(o.app))))
+	}
+	ka, va := c48firstStop(c.va)
+	kh, vh := c48firstStop(c.vh)
+	acceptClose := va == c48Close
+	hsReached := c.tls && !acceptClose
+	hsClose := hsReached && vh == c48Close
+
+	orderSig := func(point string, got, want []int, stopVerdict int) {
+		if c48eqInts(got, want) {
+			return
+		}
+		kind := "out-of-order"
+		switch {
+		case len(got) == 0:
+			kind = "not-invoked"
+		case len(want) == 0:
+			kind = "invoked-where-the-point-is-not-reached"
+		case len(got) > len(want) && c48eqInts(got[:len(want)], want) && len(got)%len(want) == 0 && c48eqInts(got[len(want):2*len(want)], want):
+			kind = "chain-run-again"
+		case len(got) > len(want) && c48eqInts(got[:len(want)], want) && stopVerdict != c48GoOn:
+			kind = "continued-after-" + c48verdWord[stopVerdict]
+		case len(got) < len(want) && c48eqInts(got, want[:len(got)]):
+			kind = "chain-cut-short"
+		}
+		vio("order:"+point+":"+kind, fmt.Sprintf("%s filters called %v, want %v", point, got, want))
+	}
+	orderSig("Accept", o.accept, c48seq(ka+1), va)
+	wantHS := []int(nil)
+	if hsReached {
+		wantHS = c48seq(kh + 1)
+	}
+	orderSig("Handshake", o.hs, wantHS, vh)
+
+	switch {
+	case acceptClose:
+		if o.rawToCli != 0 || len(o.app) != 0 || (c.tls && o.hsDone && o.hsErr == nil) {
+			vio("close:Accept:"+tr+":bytes-sent", "close verdict at HandleAccept but the client received data")
+		}
+		if o.requests != 0 {
+			vio("close:Accept:"+tr+":request-served", "close verdict at HandleAccept but a request-level filter ran")
+		}
+		if !o.serveDone || !o.srvClosed {
+			vio("close:Accept:"+tr+":not-closed", "close verdict at HandleAccept but the server kept the connection")
+		}
+		return "conn:" + tr + ":accept-close-silent"
+	case hsClose:
+		if !o.hsDone || o.hsErr != nil {
+			vio("env:Handshake:handshake-failed", "the TLS handshake did not complete although HandleAccept let the connection in")
+			return "env-error"
+		}
+		if len(o.app) != 0 {
+			vio("close:Handshake:bytes-sent", "close verdict at HandleHandshake but the client received application data")
+		}
+		if o.requests != 0 {
+			vio("close:Handshake:request-served", "close verdict at HandleHandshake but a request-level filter ran")
+		}
+		if !o.serveDone || !o.srvClosed {
+			vio("close:Handshake:not-closed", "close verdict at HandleHandshake but the server kept the connection")
+		}
+		return "conn:tls:handshake-close-silent"
+	}
+	// nobody closed: verdicts these points do not honour (thorough tier) leave the connection alone
+	cls := "goon"
+	if va != c48GoOn || (hsReached && vh != c48GoOn) {
+		cls = "unhonoured-verdict"
+	}
+	resps, _, rest, perr := c48parse(o.app, []string{"GET"})
+	served := perr == nil && rest == 0 && len(resps) == 1 && resps[0].status == 200 && string(resps[0].body) == "served" && o.requests == 1
+	if cls == "goon" && !served {
+		vio("goon:"+tr+":not-served", fmt.Sprintf("every connection-level filter said GoOn but the request was not served (parsed %d responses, err=%v)", len(resps), perr))
+	}
+	if c.tls && (!o.hsDone || o.hsErr != nil) && cls == "goon" {
+		vio("goon:tls:handshake-failed", "every HandleAccept filter said GoOn but the TLS handshake did not complete")
+	}
+	if served {
+		return "conn:" + tr + ":" + cls + ":served"
+	}
+	return "conn:" + tr + ":" + cls + ":not-served"
+}
+
+// c48connEnumerate runs the whole conn family; idx continues the shard partition counter.
+func c48connEnumerate(t *testing.T, r *vk.Run, dir string, idx *int) {
+	alphabet := []int{c48GoOn, c48Close}
+	if r.Thorough() {
+		alphabet = append(alphabet, c48Finish) // a verdict these points do not honour: order only
+	}
+	maxL := r.Pick(3, 4)
+	var vecs [][]int
+	var gen func(cur []int, L int)
+	gen = func(cur []int, L int) {
+		if len(cur) == L {
+			vecs = append(vecs, append([]int(nil), cur...))
+			return
+		}
+		for _, a := range alphabet {
+			gen(append(cur, a), L)
+		}
+	}
+	for L := 0; L <= maxL; L++ {
+		gen(nil, L)
+	}
+	r.Set("conn_bounds", fmt.Sprintf("transports plain+tls, chains of 0..%d filters at HandleAccept x 0..%d at HandleHandshake, verdict alphabet %d per filter (%d vectors per point), one request-level filter", maxL, maxL, len(alphabet), len(vecs)))
+	var env *c48connEnv
+	var panics int64
+	for _, tls := range []bool{false, true} {
+		for _, va := range vecs {
+			for _, vh := range vecs {
+				*idx++
+				if !r.Mine(*idx) {
+					continue
+				}
+				if r.Expired("conn family") {
+					return
+				}
+				c := c48connCase{tls: tls, va: va, vh: vh}
+				id := c.id()
+				if !r.Case(id) {
+					continue
+				}
+				if env == nil {
+					env = c48connSetup(t, filepath.Join(dir, "conn"))
+				}
+				var o c48connObs
+				var cls string
+				panicked, pv := vk.Guard(func() {
+					o = c48connExecute(t, env, c)
+					cls = c48connJudge(r, c, o)
+				})
+				if panicked {
+					r.Violation("env:harness-panic:"+vk.PanicSite(pv), id, pv)
+					continue
+				}
+				if o.panics > 0 {
+					panics += o.panics
+					r.Violation("panic:conn:"+cls, id, fmt.Sprintf("%d panic(s) recovered in conn.serve", o.panics))
+				}
+				r.Outcome(cls)
+				if len(va)+len(vh) >= 1 {
+					r.Nontrivial(id)
+				}
+				if tls && len(va) == 2 && len(vh) == 2 {
+					r.Sample(map[string]interface{}{"case": id, "accept_calls": c48ints(o.accept), "handshake_calls": c48ints(o.hs), "request_filter_runs": o.requests, "client_app_bytes": string(c48trunc(o.app)), "raw_bytes_to_client": o.rawToCli, "outcome": cls})
+				}
+			}
+		}
+	}
+	r.Add("recovered_panics_conn", panics)
+}
+
 // ---- enumeration ---------------------------------------------------------------------------------
 
 func c48spec() h1spec {
@@ -728,6 +1214,7 @@ func TestVerifC48(t *testing.T) {
 
 	idx := 0
 	panics := int64(0)
+	c48connEnumerate(t, r, dir, &idx)
 	for L := 1; L <= maxL; L++ {
 		var srv *BfeServer // built lazily: a shard may own nothing for this L
 		nvec := 1
